@@ -18,6 +18,7 @@ INVARIANT CentresExact
 INVARIANT Partition
 INVARIANT NoneOnlyWhenAllowed
 INVARIANT ValuesFollow
+INVARIANT StoredEqualsLive
 INVARIANT SmallestSubGrid
 INVARIANT FacesSafe
 INVARIANT ExportCase
